@@ -35,7 +35,7 @@ class C11(BaseCheck):
   REQUIRED_ANCHORS = ANCHORS
   REQUIRED_CLASSES = ('thriftmux', 'kafka', 'adv:duplicate-reply', 'adv:unknown-tag', 'adv:reserved-tag-1',
                       'adv:tag-0', 'adv:huge-tag', 'adv:bitflip-tag', 'error-frame-replies', 'kafka:timeouts', 'tagpool:exhausted', 'tagpool:get-after-refusal', 'direct:bare-messages', 'direct:expired-while-opening', 'direct:retry-from-reply-handler', 'direct:answered-after-expiry-in-queue', 'timeout-before-send', 'timeout-after-send', 're-open',
-                      'tag-reuse', 'yielding-log-handler', 'direct:reply-handler-yields', 'direct:answered-twice-handler-yields', 'replies-in-several-segments', 'large-tags', 'callers-abandon-behind-deep-backlog')
+                      'tag-reuse', 'yielding-log-handler', 'direct:reply-handler-yields', 'direct:answered-twice-handler-yields', 'replies-in-several-segments', 'large-tags', 'callers-abandon-behind-deep-backlog', 'keepalive-ping-between-requests')
   ASSUMPTIONS = ('a tag counts as answered when the client has read the last byte of any R-frame carrying it '
                  '(known from the simulated socket\'s read offsets)',)
   QUICK_CASES = 720
@@ -681,6 +681,7 @@ class C11(BaseCheck):
         t = rng.choice([MAXTAG + 1, MAXTAG, 1 << 23])
         conn.write(mc.rerr(t, b'huge'), 0.0, None, 'adv:%d' % t)
 
+    paused = [False]
     while issued < ncalls:
       burst = rng.randint(1, conc)
       for _ in range(min(burst, ncalls - issued)):
@@ -688,6 +689,11 @@ class C11(BaseCheck):
         w.call('echo', None, timeout=T)
         issued += 1
       env.advance(rng.choice([0.001, 0.01, 0.05, 0.2]) * rng.random())
+      if idx % 5 == 3 and not paused[0] and issued >= ncalls // 2:
+        # a lull long enough for the transport's keep-alive ping (every 30-40 s) to go out between requests
+        paused[0] = True
+        classes.add('keepalive-ping-between-requests')
+        env.advance(41.0)
       if adversarial and rng.random() < 0.4:
         inject()
       if rng.random() < 0.03:
